@@ -171,6 +171,14 @@ impl SendStream {
             Err(e) => match e.try_into() {
                 Ok(e) => Poll::Ready(Err(e)),
                 Err(()) => {
+                    // `Blocked`. quinn-proto looks at the connection-level budget
+                    // before the stop reason, so a stream the peer has stopped still
+                    // reports `Blocked` while that budget is exhausted, and no
+                    // `Writable` event follows for a stream that is also at its own
+                    // limit: the writer would wait for ever. Report the stop instead.
+                    if let Ok(Some(code)) = state.conn.send_stream(self.stream).stopped() {
+                        return Poll::Ready(Err(WriteError::Stopped(code)));
+                    }
                     state.writable.insert(self.stream, cx.waker().clone());
                     Poll::Pending
                 }
